@@ -154,6 +154,22 @@ CLAIMED = {
         "abstract in the theorems; value codec = C06.",
    technique="Coq proof over a JSON-tree model of save/load + vm_compute correspondence of the shape test + continuation differential",
    design_ref="DESIGN.md §6 C05"),
+ "C19": dict(
+   category="translation_validation",
+   text="The browser engine is a textual fork of the main engine without hooks and @join; it is validated, not separately modelled.  "
+        "On every run: (a) fork_diff - an ast comparison of engine.py and engine_browser.py; every function whose body differs, or exists on "
+        "one side only, must be in the list the argument accounts for; (b) the ONE engine model Engine/Engine.v (for which C02-C10/C15 are "
+        "proved) is evaluated inside Coq against the real BROWSER engine on generated common-subset stories x histories; (c) the two real "
+        "engines are compared step by step (outputs, variables, used choices, undo/redo flags, save documents) including save->JSON->load "
+        "hand-overs; (d) bundle contents: create_browser_bundle on a story with an @include - game.json equals compile_file's output and the "
+        "copied engine is byte-identical to the template.  Supporting theorems in coq/Props/C19.v (closed, named _partial): on the common "
+        "subset the model never offers a '-> @join' choice or a choice of another section, so choose() always takes the ordinary path; the "
+        "turn_end run is the identity while nothing is registered; the section test is vacuous for section-0 choices - i.e. the model never "
+        "exercises what the fork lacks.  A step-by-step simulation between two models is not proved (there is one model).",
+   note="Trusted: the ast comparison and its ACCOUNTED list (harness/c19.py); Coq kernel + vm_compute for the model evaluation; the engine "
+        "model's own tie to the main engine (engine checks); React hints, imports and localStorage helpers of the fork are not exercised.",
+   technique="fork diff (ast) + differential of both real engines + vm_compute comparison of the fork with the proved engine model; partial Coq lemmas",
+   design_ref="DESIGN.md §6 C19"),
 }
 
 ALL = [f"C{i:02d}" for i in range(1, 21)]
